@@ -1,7 +1,7 @@
 (** Entry points for operation histories on an Acl (kernels K-ids, K-history). *)
 From V Require Import base.Prelude base.Strs gen.Tables model.Cfg model.Names model.Wildcard
   model.Addr model.Ports model.Ace model.Lex model.AddrText model.AceText model.AclText
-  model.Shading model.SplitPorts model.Platform model.Ops proofs.HistoryProofs proofs.ClassCheck.
+  model.Shading model.SplitPorts model.Platform model.Ops proofs.HistoryProofs.
 Local Open Scope N_scope.
 
 Definition v_leaf (l : leaf) : val := VL [VN (leaf_id l); VN (leaf_note l)].
@@ -50,10 +50,3 @@ Fixpoint first_diff_l (i : N) (a b : list val) : N * val * val :=
 Definition first_diff (a b : val) : N * val * val :=
   match a, b with VL x, VL y => first_diff_l 0 x y | _, _ => (0, a, b) end.
 
-(** is this history inside the class of the certificate-free theorem ([ClassCheck.history_checked]:
-    then every packet's decision is provably kept along it)?  Counted by the check. *)
-Definition history_in_class (c : cfg) (name : string) (body : list string) (ops : list op) : bool :=
-  match init_acl c name body with
-  | Ok a0 => acl_builtb (note_all (snd (relabel 1 a0))) && forallb op_okb ops
-  | _ => false
-  end.
